@@ -145,4 +145,30 @@ theorem wrappers_rules (shapes : List (String × String)) (ex : List String) :
     wrapperRules (.intersection none) shapes = shapes.map (·.2) ∧
     wrapperRules (.intersection (some ex)) shapes = ex := ⟨rfl, rfl, rfl, rfl⟩
 
+open PicoSVG PathOps Spec in
+/-- the set meaning of a left fold of differences: inside the first operand and outside every further one -/
+theorem diff_all_iff (a : Region α) (bs : List (Region α)) (p : Pt α) :
+    combineAll .difference a bs p ↔ a p ∧ ∀ b ∈ bs, ¬ b p := by
+  unfold combineAll
+  induction bs generalizing a with
+  | nil => simp
+  | cons b bs ih =>
+    simp only [List.foldl_cons, List.mem_cons, forall_eq_or_imp]
+    rw [ih]; simp only [combine]; exact and_assoc
+
+open PicoSVG PathOps Spec in
+/-- C13 (difference): the path returned for `difference((a0, a1, …), rules)` covers exactly the points inside the first
+    operand under its rule and outside every other operand under theirs -/
+theorem difference_geometry (E : Engine P α) (interior : P → Region α) (iAs : FillRule → P → Region α)
+    (G : Pt α → Prop) (S : EngineSpec E interior iAs G)
+    (s0 : List (Cmd α)) (ss : List (List (Cmd α))) (r0 : FillRule) (rr : List FillRule) (res : P)
+    (h : doPathopP E .difference (s0 :: ss) (r0 :: rr) = .ok (some res)) :
+    ∃ b0 bs, E.ofCmds s0 r0 = .ok b0 ∧ Built E ss rr bs ∧
+      ∀ p, G p → (interior res p ↔ interior b0 p ∧ ∀ b ∈ bs, ¬ interior b p) := by
+  obtain ⟨b0, bs, hb0, hbuilt, hint⟩ := doPathop_interior E interior iAs G S .difference s0 ss r0 rr res h
+  refine ⟨b0, bs, hb0, hbuilt, fun p hp => ?_⟩
+  rw [(hint p hp).1, diff_all_iff]
+  simp
+
+
 end PicoSVG.C13
